@@ -204,6 +204,9 @@ def gen_cases(ctx, n_models, n_states, seed_offset=0, gen_opts=None):
       opts.update(stack=(2, 3))         # mixed stacks
     if mi % 7 == 6:
       opts.update(gravity=(0.3, -0.2, -9.81))
+    if mi % 5 == 4:
+      # floating base with several actuators behind it: q and qd indices of a joint differ (7 vs 6 per free joint)
+      opts.update(roots='free', n_links=(2, 4), actuators=(2, 4), topology='chain')
     if mi in (0, 1) and not gen_opts:
       # history dependence within one process: the same joint layout ('111') as a chain, then as a star
       opts.update(n_links=(3, 3), stack=(1, 1), roots='world', topology=('chain', 'star')[mi])
